@@ -80,7 +80,24 @@ def extra_types():
             [Rule.annotate(list, Rule.annotate(t)) for t in names[:5]] + \
             [LogicalType.combine("|", Rule.annotate(datetime.datetime), int), LogicalType.combine("^", Rule.annotate(datetime.date), Rule.annotate(str)),
              Rule.annotate(dict, Rule.annotate(datetime.date), Rule.annotate(Decimal))]
+        # constrained numbers called directly: every validator meets every non-finite / huge spelling
+        global N_PLAIN_EXTRA
+        N_PLAIN_EXTRA = len(EXTRA_TYPES)
+        for t in (Decimal, float, int):
+            for cons in ({"ge": 0}, {"lt": 10}, {"gt": -1, "le": 100}, {"multiple_of": 0.5}, {"multiple_of": 3}, {"max_digits": 5},
+                         {"decimal_places": 2}, {"ge": Decimal("0.5")}, {"const": 1}, {"enum": [1, 2]}):
+                try:
+                    EXTRA_TYPES.append(Rule.annotate(t, constraints=dict(cons)))
+                except Exception:
+                    pass
     return EXTRA_TYPES
+
+
+N_PLAIN_EXTRA = 0
+NUMERIC_HOSTILE = [float("inf"), float("-inf"), float("nan"), "inf", "-inf", "nan", "NaN", "-nan", "sNaN", "Infinity", b"nan", b"inf",
+                   Decimal("Infinity"), Decimal("-Infinity"), Decimal("NaN"), Decimal("sNaN"), Decimal("-NaN"), 10 ** 400, -10 ** 400,
+                   "1" + "0" * 400, "1e400", "-1e400", "1e-400", 1e308, -1e308, 5e-324, [float("nan")], [Decimal("Infinity")], ["nan"],
+                   (10 ** 400,), 2 ** 63, True, None, "", "1_0", "１２"]
 
 
 def gen_case(rng, classes):
@@ -89,7 +106,12 @@ def gen_case(rng, classes):
     if k < 0.55:
         return dict(kind="type", spec=decl.rand_spec(rng, rng.choice([0, 1, 2, 3])), options=opts, value=hostile_value(rng))
     if k < 0.75:
-        return dict(kind="extra", idx=rng.randrange(len(extra_types())), options=opts, value=hostile_value(rng))
+        n_all = len(extra_types())
+        if rng.random() < 0.45 and n_all > N_PLAIN_EXTRA:
+            return dict(kind="extra", idx=rng.randrange(N_PLAIN_EXTRA, n_all), options=opts,
+                        value=rng.choice(NUMERIC_HOSTILE) if rng.random() < 0.75 else hostile_value(rng))
+        return dict(kind="extra", idx=rng.randrange(N_PLAIN_EXTRA or n_all), options=opts,
+                    value=rng.choice(NUMERIC_HOSTILE) if rng.random() < 0.2 else hostile_value(rng))
     name = rng.choice(classes)
     data = hostile_value(rng)
     if rng.random() < 0.6:
